@@ -41,7 +41,7 @@ class Frame:
                  'data', 'pad', 'prio', 'fragment', 'promised', 'error_code',
                  'increment', 'settings', 'opaque', 'last_sid', 'debug',
                  'origin', 'field', 'offset', 'headers', 'hpack_error',
-                 'block_frames', 'table_updates', 'header_list_size', 'src_step', 'problems')
+                 'block_frames', 'table_updates', 'header_list_size', 'src_step', 'problems', 'quirk')
 
     def __init__(self, type_, flags=0, sid=0, payload=b''):
         self.type = type_
@@ -72,6 +72,7 @@ class Frame:
         self.header_list_size = None
         self.src_step = None   # (sender side) the Step that emitted this frame
         self.problems = ()     # every (category, text) found, f.bad is one of them
+        self.quirk = None      # hits a documented quirk of the hyperframe dependency (oracles abstain)
 
     @property
     def name(self):
@@ -211,7 +212,10 @@ def parse_payload(f):
             f.bad = f.bad or ('size', 'PUSH_PROMISE truncated')
             f.fragment = b''
             return
-        f.promised = struct.unpack('>I', body[:4])[0] & 0x7fffffff
+        raw = struct.unpack('>I', body[:4])[0]
+        if raw >> 31:
+            f.quirk = 'hyperframe 6.1 does not mask the reserved bit of the promised stream id'
+        f.promised = raw & 0x7fffffff
         body = body[4:]
         if pad > len(body):
             f.bad = f.bad or ('proto', 'padding longer than payload')
@@ -239,7 +243,10 @@ def parse_payload(f):
         if n != 4:
             f.bad = ('size', 'WINDOW_UPDATE length != 4')
             return
-        f.increment = struct.unpack('>I', p)[0] & 0x7fffffff
+        raw = struct.unpack('>I', p)[0]
+        if raw >> 31:
+            f.quirk = 'hyperframe 6.1 does not mask the reserved bit of WINDOW_UPDATE'
+        f.increment = raw & 0x7fffffff
         if f.increment == 0:
             f.bad = ('proto', 'WINDOW_UPDATE increment 0')
     elif t == CONTINUATION:
